@@ -341,7 +341,7 @@ pub fn run(ctx: &Ctx) -> PropertyReport {
     rep.assume("docs/attributes.md fixes no entry order; the empty map is zero bytes (stated by the property, the document is silent)");
     let sub = crate::engine::replay_subcheck_or_all(ctx);
     if sub.runs("blobs") {
-        let cases = ctx.cfg.cases(60_000, 2_000_000);
+        let cases = ctx.cfg.cases(200_000, 3_000_000);
         let mut r = ctx.run_prop("blobs", cases, || attr_case(12), body);
         for l in ["empty_map", "empty_name", "nonfinite_float", "general_matrix", "near_basis_matrix", "basis_rotation", "empty_sequence", "non_utf8_bytes", "font_with_cached_face", "string_attribute", "enum_item", "foreign_order_shuffled"] {
             r.floor(l, cases / 500);
@@ -349,7 +349,7 @@ pub fn run(ctx: &Ctx) -> PropertyReport {
         rep.push(r);
     }
     if sub.runs("file-blobs") {
-        let cases = ctx.cfg.cases(8_000, 200_000);
+        let cases = ctx.cfg.cases(20_000, 300_000);
         rep.push(ctx.run_prop("file-blobs", cases, || attr_case(8), file_blob_body));
     }
     if sub.runs("exhaustive") {
